@@ -358,7 +358,7 @@ func (m *c04Model) solve(g *c04Goal, e *menv, local map[string]*mt, k func(*menv
 			if s := k(e); s != sigFail {
 				return s
 			}
-			if i > 3000 {
+			if i > 1000 {
 				return sigCap // repeat/0 whose continuation keeps failing without an event: it does not terminate
 			}
 		}
